@@ -190,8 +190,8 @@ def configs(tier):
     else:
         plan = [((1, 2, 3), (1.0, 2.0), 2, (0, 0.5, 1.0, 1.5, 2.0, 2.25), (0, 0.5, 1.0, 1.5, 2.0, 2.5, 3.0)),
                 ((1, 2, 3), (1.0, 2.0), 3, (0, 0.5, 1.0, 1.5, 2.0, 2.25), (0, 0.5, 1.0, 1.5, 2.0, 2.5, 3.0)),
-                ((1, 2, 3), (1.0, 2.0), 4, (0, 0.5, 1.0, 1.5, 2.0), (0, 1.0, 2.0, 3.0)),
-                ((1, 2, 3), (1.0, 2.0), 5, (0, 0.5, 1.0, 2.0), (0, 1.0, 2.0, 3.0))]
+                ((1, 2, 3), (1.0, 2.0), 4, (0, 0.5, 1.0, 2.0), (0, 1.0, 2.0)),
+                ((1, 2), (1.0, 2.0), 5, (0, 0.5, 1.0, 2.0), ())]
     seen = set()
     for counts, windows, n, times, ctimes in plan:
         for arr in itertools.combinations_with_replacement(times, n):
@@ -269,7 +269,7 @@ def check(tier, seed, procs):
         'deviation_bound': 'unbounded (every order of timer/external-event completions at every instant over a FIFO ready queue, state-hash pruned)',
         'bounds': ('count 1-2, window 1 s / 2 s, 2-3 entrants arriving at 0/0.5/1/2 s, at most one entrant cancelled at 0/1/2 s' if tier == 'quick' else
                    'count 1-3, window 1 s / 2 s; 2-3 entrants arriving at 0/0.5/1/1.5/2/2.25 s with <=1 cancelled at 0/0.5/1/1.5/2/2.5/3 s; '
-                   '4 entrants arriving at 0/0.5/1/1.5/2 s with <=1 cancelled at 0/1/2/3 s; 5 entrants arriving at 0/0.5/1/2 s with <=1 cancelled at 0/1/2/3 s'),
+                   '4 entrants arriving at 0/0.5/1/2 s with <=1 cancelled at 0/1/2 s; 5 entrants (count 1-2) arriving at 0/0.5/1/2 s, none cancelled'),
     }
     need = ['cancel:before-arrival', 'cancel:while-sleeping-inside', 'cancel:woken-before-resume', 'cancel:after-exit',
             'an-entrant-had-to-wait', 'two-or-more-waiting-together', 'two-admissions-at-one-instant']
